@@ -429,7 +429,9 @@ func (r *Reader) SeekLog(name string, updateIndex uint64) (*Iterator, error) {
 // seek seeks to the key specified by the record
 func (r *Reader) seek(rec record) (*tableIter, error) {
 	typ := rec.typ()
-	if rec.key() == newRecord(rec.typ(), "").key() {
+	if typ != blockTypeLog && rec.key() == newRecord(rec.typ(), "").key() {
+		// The empty key sorts before all others. (This is not so
+		// for the key of a zero LogRecord.)
 		return r.start(typ, false)
 	}
 
